@@ -461,6 +461,9 @@ def oracle(ctx):
         ctx.sample({"text": "Feb (default 2001-01-31)", "impl": L.run_impl(L.Call("Feb", default=datetime.datetime(2001, 1, 31)))[0]})
         ctx.sample({"text": "10:00 GMT+3", "impl": L.run_impl(L.Call("10:00 GMT+3"))[0]})
         ctx.sample({"text": "Friday (default 2003-09-25, a Thursday)", "impl": L.run_impl(L.Call("Friday"))[0]})
+        # the two-digit-year pivot the model is given comes from the process clock (review3b F8)
+        L.set_tz("UTC")
+        L.pivot_oracle(ctx)
     finally:
         L.set_tz(prev)
 
